@@ -35,6 +35,19 @@ def gen_case(run, i):
         rh = -(-(ref.ytop - (sytop - sh * ps)) // pr) + 2
         src = rasters.Grid(sx0, sytop, ps, ps, sw, sh, src.unit)
         ref = rasters.Grid(ref.x0, ref.ytop, pr, pr, rw, rh, src.unit)
+    if i % 16 == 9:
+        # non-square source pixels: coarser than the reference along x, finer along y, smaller in area: the reference grid is the
+        # processing grid (by area) and the source reaches it by the down-sampling method
+        grid, family = 'auto-ref', 'dyadic'
+        pr = rng.choice([8, 16])
+        spx, spy = pr * 3 // 2, pr // 4
+        rx0, rytop = 8 * 40_000 + 3, 8 * 20_000 + 5
+        sw, sh = rng.randint(5, 9), rng.randint(24, 40)
+        sx0 = rx0 + 2 * pr + rasters.offgrid_offset(rng, 'dyadic', spx, pr)
+        sytop = rytop - 2 * pr - rng.randrange(0, pr)
+        src = rasters.Grid(sx0, sytop, spx, spy, sw, sh, rasters.Fraction(1, 8))
+        ref = rasters.Grid(rx0, rytop, pr, pr, -(-(sx0 + sw * spx - rx0) // pr) + 2, -(-(rytop - (sytop - sh * spy)) // pr) + 2,
+                           rasters.Fraction(1, 8))
     nsb = rng.choice([1, 2, 3])
     dup = rng.random() < 0.15 and nsb > 1
     return dict(i=i, family=family, grid=grid, src=src.to_dict(), ref=ref.to_dict(), nb=nsb,
@@ -68,13 +81,13 @@ def run(run: common.Run):
         for _ in range(rng.randint(0, 2)):
             rv[rng.randrange(ref.h), rng.randrange(ref.w)] = False
         if case['grid'] == 'forced-finer':
-            proc = 'src' if src.px <= ref.px else 'ref'
+            proc = 'src' if src.px * src.py <= ref.px * ref.py else 'ref'
         else:
             proc = 'auto'
-        proc_ref = (proc == 'ref') or (proc == 'auto' and src.px <= ref.px)
+        proc_ref = (proc == 'ref') or (proc == 'auto' and src.px * src.py <= ref.px * ref.py)
         # which image is resampled onto the processing grid, and how
         og, pg, oarr, ov = (src, ref, s, sv) if proc_ref else (ref, src, r, rv)
-        down = og.px <= pg.px
+        down = og.px * og.py <= pg.px * pg.py
         method = 'average' if down else case['upsampling']
         modelled = method in ('average', 'nearest', 'bilinear')
         if not down:
@@ -140,7 +153,7 @@ def run(run: common.Run):
         results = []
         for hv in case['halvings']:
             sub = dict(case, halvings=hv)
-            mbm = fusion.block_mem_for(hv, ph, pw, src.px, ref.px, proc_ref) if hv else 100
+            mbm = fusion.block_mem_for(hv, ph, pw, (src.px, src.py), (ref.px, ref.py), proc_ref) if hv else 100
             try:
                 with warnings.catch_warnings():
                     warnings.simplefilter('ignore')
